@@ -1,1 +1,2 @@
-
+import Proofs.GenWordOps
+import Proofs.GenTables
